@@ -174,6 +174,9 @@ def rule_error_selection(ctx):
     # default predicates
     pf = A.get_fn(ctx.files, ERR, "parse_fields")
     t = A.fn_text(pf)
+    tags = role_tags(ctx)
+    S_, B_ = tags["source"], tags["backtrace"]
+    ctx.note(f"role tags of the Error derive: source = {S_}, backtrace = {B_}")
     preds = [
         ("named-source", ['"source"=>ident=="source"'], "named: the field called `source`"),
         ("named-backtrace", ['"backtrace"=>{ident=="backtrace"||is_type_path_ends_with_segment(&field.ty,"Backtrace")}', '"backtrace"=>ident=="backtrace"||is_type_path_ends_with_segment(&field.ty,"Backtrace")'], "named: the field called `backtrace` or Backtrace-typed"),
@@ -181,6 +184,8 @@ def rule_error_selection(ctx):
         ("tuple-backtrace", ['"backtrace"=>{is_type_path_ends_with_segment(&field.ty,"Backtrace")}', '"backtrace"=>is_type_path_ends_with_segment(&field.ty,"Backtrace")'], "tuple: a Backtrace-typed field"),
         ("two-field", ["parsed.source=parsed.source.or_else(||infer_source_field("], "tuple: explicit/inferred source first, else the two-field inference"),
     ]
+    # the arms are keyed by the role tag (a string, or a variant of a private enum): `"source" =>` / `FieldAttr::Source =>`
+    preds = [(k_, [re.sub(r'^"source"=>', S_ + "=>", re.sub(r'^"backtrace"=>', B_ + "=>", p_)) for p_ in pats], w_) for k_, pats, w_ in preds]
     for key, pats, what in preds:
         ctx.instance(f"default:{key}")
         if not any(A.wsearch(t, p_) for p_ in pats):
@@ -284,3 +289,22 @@ def rule_error_selection(ctx):
     ctx.instance("render_source_as_struct")
     if "let source=self.source?;let ident=&self.data.members[source];Some(render_some(quote!(#ident)))" not in t:
         ctx.report("errsel:struct-member", ctx.where(f, st.node), "struct `source()` no longer returns the member at the selected (enabled) position", {"text": t})
+
+
+
+def role_tags(ctx):
+    """How the Error derive names the two roles internally: the values `parse_fields_impl` hands to `parse_field_impl`
+    for the source and the backtrace search - string literals on the pinned tree, possibly variants of a private enum.
+    {"source": rendered expr, "backtrace": rendered expr}"""
+    fn = A.get_fn(ctx.files, ERR, "parse_fields_impl")
+    out = {}
+    for c, _ in A.find(fn.block, "Expr::Call"):
+        if A.kind(c["func"]) == "Expr::Path" and A.path_str(c["func"]).split("::")[-1] == "parse_field_impl":
+            for a in c["args"]:
+                r = A.render(a)
+                low = r.strip('"').split("::")[-1].lower()
+                if low in ("source", "backtrace") and (r.startswith('"') or "::" in r):
+                    out[low] = r
+    if set(out) != {"source", "backtrace"}:
+        raise A.AnchorLost(f"{ERR}::parse_fields_impl", f"role tags handed to parse_field_impl: {out}")
+    return out
